@@ -159,6 +159,33 @@ type CertSpec struct {
 	NotAfter  time.Time
 	IsCA      bool
 	Exts      []ExtKind
+	// SPKIForm selects how the subject public key is encoded in this certificate:
+	// "" = the canonical DER of the key; "rsa-no-null" = an RSA key whose
+	// AlgorithmIdentifier omits the NULL parameters (accepted by lenient parsers,
+	// does not survive a parse / re-marshal round trip). Key hashes an RFC 6962
+	// client derives are over the bytes in the certificate.
+	SPKIForm string
+}
+
+// SPKI returns the SubjectPublicKeyInfo bytes as they stand in the certificate.
+func (c *Cert) SPKI() []byte { return c.Spec.spki() }
+
+func (s *CertSpec) spki() []byte {
+	switch s.SPKIForm {
+	case "":
+		return s.Key.SPKI
+	case "rsa-no-null":
+		var in struct {
+			Alg pkix.AlgorithmIdentifier
+			Key asn1.BitString
+		}
+		if rest, err := asn1.Unmarshal(s.Key.SPKI, &in); err != nil || len(rest) > 0 || s.Key.Kind != "rsa2048" {
+			panic("harness: rsa-no-null needs an RSA key")
+		}
+		in.Alg.Parameters = asn1.RawValue{}
+		return mustMarshal(in)
+	}
+	panic("harness: unknown SPKIForm " + s.SPKIForm)
 }
 
 // Cert is a built certificate.
@@ -318,7 +345,7 @@ func (s *CertSpec) buildTBS(final bool) []byte {
 		Issuer:   asn1.RawValue{FullBytes: issuerName},
 		Validity: validity{s.NotBefore.UTC(), s.NotAfter.UTC()},
 		Subject:  asn1.RawValue{FullBytes: nameDER(s.CN)},
-		SPKI:     asn1.RawValue{FullBytes: s.Key.SPKI},
+		SPKI:     asn1.RawValue{FullBytes: s.spki()},
 	}
 	for _, k := range s.Exts {
 		if final && k == "poison" {
@@ -374,7 +401,7 @@ func (c *Cert) EntryFor() Entry {
 	if final.IsPreIssuer() {
 		final = final.Spec.Issuer
 	}
-	return Entry{Type: PrecertEntry, IssuerKeyHash: sha256.Sum256(final.Spec.Key.SPKI), TBS: c.Spec.buildTBS(true)}
+	return Entry{Type: PrecertEntry, IssuerKeyHash: sha256.Sum256(final.SPKI()), TBS: c.Spec.buildTBS(true)}
 }
 
 // PEM renders the certificate as PEM.
